@@ -86,7 +86,8 @@ func genScenario(t *rapid.T) *scenario {
 	}
 	// preload so that the list is close to overflowing when the writers start
 	w := rapid.IntRange(1, 4).Draw(t, "writers")
-	total := rapid.IntRange(200, 262).Draw(t, "preloadTotal")
+	// often exactly at the capacity of the list (256 entries), one below or one above it
+	total := rapid.OneOf(rapid.IntRange(200, 262), rapid.SampledFrom([]int{254, 255, 256, 256, 256, 257})).Draw(t, "preloadTotal")
 	for i := nstable; i < total; i++ {
 		sc.filler = append(sc.filler, prefix{40<<24 | uint32(i)<<8, 24})
 	}
@@ -103,6 +104,10 @@ func genScenario(t *rapid.T) *scenario {
 		nhot := rapid.IntRange(1, 3).Draw(t, "nhot") // a few ranges are toggled over and over
 		var script []wop
 		state := make([]bool, np)
+		if rapid.IntRange(0, 2).Draw(t, "startsWithRemoveOfAbsent") == 0 {
+			// the very first thing this writer does is remove a range that was never there
+			script = append(script, wop{false, mine[np-1], np - 1})
+		}
 		for k := 0; k < n; k++ {
 			i := rapid.IntRange(0, np-1).Draw(t, "which")
 			if rapid.IntRange(0, 2).Draw(t, "hot") > 0 {
@@ -379,6 +384,15 @@ func TestSwitchHammer(t *testing.T) {
 				stable = append(stable, p)
 			}
 		}
+		// writers that update their own ranges at the very moment of the crossing Add: each removes some ranges that
+		// are in the list and adds one that is not; none of it may be lost or resurrected by the migration
+		nw := rapid.IntRange(0, 3).Draw(t, "writersAtTheSwitch")
+		victims := make([][]prefix, nw)
+		for w := 0; w < nw && len(stable) > 40; w++ {
+			k := rapid.IntRange(1, 8).Draw(t, "victims")
+			victims[w] = append([]prefix(nil), stable[len(stable)-k:]...)
+			stable = stable[:len(stable)-k]
+		}
 		var stop atomic.Bool
 		var bad atomic.Pointer[string]
 		var lookups atomic.Int64
@@ -407,9 +421,41 @@ func TestSwitchHammer(t *testing.T) {
 		for lookups.Load() < int64(readers) && bad.Load() == nil { // readers are up and running
 			runtimeGosched()
 		}
+		var armed atomic.Bool
+		var wg sync.WaitGroup
+		for w := range victims {
+			wg.Add(1)
+			go func(w int) {
+				defer wg.Done()
+				for !armed.Load() {
+				}
+				for spin := 0; spin < w*40; spin++ { // staggered starts
+					_ = armed.Load()
+				}
+				for _, v := range victims[w] {
+					f.Remove(ipnet(v))
+				}
+				f.Add(ipnet(prefix{uint32(12+w) << 24, 8}))
+			}(w)
+		}
 		crossing := prefix{11 << 24, 8}
+		armed.Store(true)
 		if err := f.Add(ipnet(crossing)); err != nil { // the 257th valid Add: the switch
 			t.Fatalf("Add: %v", err)
+		}
+		wg.Wait()
+		for w := range victims {
+			for _, v := range victims[w] {
+				if f.Contains(ip(v.net|7, false)) {
+					t.Fatalf("%v/24 was removed by a writer while another goroutine's Add switched the filter from list to maps: it is contained again afterwards", ip(v.net, false))
+				}
+			}
+			if !f.Contains(ip(uint32(12+w)<<24|9, false)) {
+				t.Fatalf("%d.0.0.0/8 was added by a writer during the switch and is not contained afterwards", 12+w)
+			}
+		}
+		if nw > 0 {
+			ev.Label("switch_hammer_with_writers_at_the_switch")
 		}
 		before := lookups.Load()
 		for lookups.Load() < before+int64(4*readers) && bad.Load() == nil {
